@@ -438,8 +438,8 @@ func c10pseqUnits(thorough bool) []c10punit {
 }
 
 // c10pseqAlts is the alphabet of one unit: the valid messages and representatives of the families of targeted invalid
-// messages of the single-call enumeration. size 0: the core families (one per stage at which a message can be refused),
-// 1: one representative of every family, 2: every targeted message.
+// messages of the single-call enumeration. size -1: valid, other share, previous fork, zero signature; 0: the core families
+// (one per stage at which a message can be refused); 1: one representative of every family; 2: every targeted message.
 func c10pseqAlts(u c10punit, own string, size int) []c10case {
 	var out []c10case
 	otherDom := c10domNames[0]
@@ -454,6 +454,9 @@ func c10pseqAlts(u c10punit, own string, size int) []c10case {
 		"other-validator-same-share": true, "under-other-validators-key": true, "wrong-domain-" + otherDom: true,
 		"wrong-fork-previous": true, "wrong-fork-current": true, "other-message": true, "zero-signature": true,
 		"slot-first-beyond-window": true}
+	if size < 0 {
+		keep = map[string]bool{"baseline": true, "claimed-2-signed-1": true, "wrong-fork-previous": true, "wrong-fork-current": true, "zero-signature": true}
+	}
 	if size >= 1 {
 		for _, a := range []string{"claimed-1-signed-3", "shareidx-0", "group-key", "wrong-fork-genesis", "outsider", "pubkey-ghost",
 			fmt.Sprintf("dutytype-%d", int(otherType)), "truncated-data"} {
@@ -491,9 +494,22 @@ func (s *c10pseq) ownDomain(u c10punit) string {
 	return ""
 }
 
-func (s *c10pseq) alphabet(units []c10punit, size int) []string {
+// alphabet: quick = the core families of the main units; thorough = one representative of every family for the main
+// units plus {valid, other share, previous fork, zero signature} for every other version.
+func (s *c10pseq) alphabet(thorough bool) []string {
 	var out []string
-	for _, u := range units {
+	main := map[string]bool{}
+	for _, u := range c10pseqUnits(false) {
+		main[u.unit()] = true
+	}
+	for _, u := range c10pseqUnits(thorough) {
+		size := 0
+		if thorough {
+			size = 1
+			if !main[u.unit()] {
+				size = -1
+			}
+		}
 		for _, c := range c10pseqAlts(u, s.ownDomain(u), size) {
 			out = append(out, c10pdesc(u, c))
 		}
@@ -518,11 +534,12 @@ func (s *c10pseq) tripleAlphabet() (units []c10punit, ops []string) {
 func c10peerSequences(r *enumx.Run, s *c10pseq) {
 	thorough := enumx.Thorough()
 	units := c10pseqUnits(thorough)
-	size := 0
-	if thorough {
-		size = 1
+	ops := s.alphabet(thorough)
+	nrep := 0
+	for _, u := range units {
+		nrep += len(s.replayDescs(u, units))
 	}
-	ops := s.alphabet(units, size)
+	r.Note(fmt.Sprintf("peer sequences: alphabet of %d operations over %d units: %d ordered pairs, plus %d replay operations after the valid message of each unit", len(ops), len(units), len(ops)*len(ops), nrep))
 	for i, a := range ops {
 		if !r.Mine() {
 			continue
@@ -746,6 +763,7 @@ func c10peerBoundaries(r *enumx.Run, s *c10pseq) {
 	}
 	lastAllowed := (h.curEpoch+3)*c10SPE - 1
 	slots := c10boundarySlots(h.curSlot(), lastAllowed)
+	r.Note(fmt.Sprintf("peer boundaries: %d duty slots, %d share indexes", len(slots), len(c10int32Boundaries())))
 	for _, x := range slots {
 		if h.windowOK(x) != (x/c10SPE <= h.curEpoch+2) {
 			r.NotExhaustive("harness: the two window computations of the harness disagree")
